@@ -640,9 +640,10 @@ pub async fn hostile(case: &Case) -> (Option<(String, String)>, EvilStats, u64) 
             let before = link.sent(1);
             // Once the peer itself has said Goodbye the endpoint rightly stops reading: frames
             // sent after that are never looked at, so the limit oracles ("keeps accepting") do not
-            // apply any more (whether the frame was read as a Goodbye is what matters: a one-byte
-            // frame 15 delivered where a message is expected).
-            let goodbye_before = link.tap().iter().any(|ev| ev.dir == 1 && ev.bytes.as_ref() == [15u8]);
+            // apply any more (any frame that starts with the Goodbye code counts, trailing bytes are
+            // ignored by the decoder; a payload frame that happens to start with 15 only makes the
+            // check skip an oracle, never raise one).
+            let goodbye_before = link.tap().iter().any(|ev| ev.dir == 1 && ev.bytes.first() == Some(&15u8));
             let r = inject(&mut conv, e, &run, &mut st).await;
             if link.sent(1) > before {
                 st.applied += 1;
